@@ -261,6 +261,31 @@ func (l runLog) json() string {
 		jInts(l.pre[:]), jInts(l.post[:]), b2i(l.halt), jU16(l.rd), jPairs(l.wr), jTriples(l.pio), jPairs(l.md))
 }
 
+// EmitPair runs the DD form (given), the mirrored FD form, and both again with
+// the other index register changed; writes the four runs and the "m" event.
+func EmitPair(dd *InitSpec, w *bufio.Writer) {
+	// FD form: same bytes with FD, IX and IY exchanged
+	fd := *dd
+	fd.R = swapIdx(dd.R)
+	fd.Cells = append([][2]int{}, dd.Cells...)
+	pc := dd.R[21]
+	for k := range fd.Cells {
+		if fd.Cells[k][0] == pc {
+			fd.Cells[k][1] = 0xfd
+		}
+	}
+	a := runOnce(dd, w)
+	b := runOnce(&fd, w)
+	// non-interference: change the other index register and re-run
+	dd2 := *dd
+	dd2.R[18], dd2.R[19] = dd.R[18]^0x5a, dd.R[19]^0xa5
+	fd2 := fd
+	fd2.R[16], fd2.R[17] = fd.R[16]^0x5a, fd.R[17]^0xa5
+	a2 := runOnce(&dd2, nil)
+	b2 := runOnce(&fd2, nil)
+	fmt.Fprintf(w, `{"e":"m","dd":%s,"fd":%s,"dd2":%s,"fd2":%s}`+"\n", a.json(), b.json(), a2.json(), b2.json())
+}
+
 func cmdPairs(args []string) {
 	fs := flag.NewFlagSet("pairs", flag.ExitOnError)
 	out := fs.String("out", "", "output directory")
@@ -279,26 +304,7 @@ func cmdPairs(args []string) {
 				if i%4 == 0 { // structured: distinct registers, boundary displacement
 					dd = CatInit(tbl, op, i, *seed, false)
 				}
-				// FD form: same bytes with FD, IX and IY exchanged
-				fd := *dd
-				fd.R = swapIdx(dd.R)
-				fd.Cells = append([][2]int{}, dd.Cells...)
-				pc := dd.R[21]
-				for k := range fd.Cells {
-					if fd.Cells[k][0] == pc {
-						fd.Cells[k][1] = 0xfd
-					}
-				}
-				a := runOnce(dd, w)
-				b := runOnce(&fd, w)
-				// non-interference: change the other index register and re-run
-				dd2 := *dd
-				dd2.R[18], dd2.R[19] = dd.R[18]^0x5a, dd.R[19]^0xa5
-				fd2 := fd
-				fd2.R[16], fd2.R[17] = fd.R[16]^0x5a, fd.R[17]^0xa5
-				a2 := runOnce(&dd2, nil)
-				b2 := runOnce(&fd2, nil)
-				fmt.Fprintf(w, `{"e":"m","dd":%s,"fd":%s,"dd2":%s,"fd2":%s}`+"\n", a.json(), b.json(), a2.json(), b2.json())
+				EmitPair(dd, w)
 			}
 		}
 		w.Flush()
